@@ -39,6 +39,10 @@ func dupScenarios() []dupScenario {
 		{"equal descriptor stored under another PTS only", map[int]ringEntry{0: {5, 1}}, 1000, map[string]bool{"0.0": true}, false},
 		{"same PTS, not equal", map[int]ringEntry{0: {1000, 2}}, 1000, map[string]bool{}, false},
 		{"empty ring", map[int]ringEntry{}, 1000, map[string]bool{}, false},
+		// the head slot (2 in every scenario) holds an older entry: the ring is
+		// full there and the entry is evicted (seed C10i: the slot recycled with
+		// its old PTS key)
+		{"head slot occupied by an older entry of another PTS", map[int]ringEntry{2: {5, 1}, 3: {6, 1}}, 1000, map[string]bool{}, false},
 	}
 }
 
@@ -141,6 +145,48 @@ func (c *Checker) runStateDuplicates() {
 			detail = "the incoming descriptor equals a stored one at the same PTS but the result error is " + showVal(errV)
 		case !sc.dup && isDup:
 			detail = "no stored descriptor at this PTS equals the incoming one but the duplicate error is returned"
+		case !sc.dup:
+			// an accepted descriptor with no entry at its PTS yet is filed in the
+			// head slot under its own PTS, alone
+			samePTS := false
+			for _, e := range sc.ring {
+				if e.pts == sc.pts {
+					samePTS = true
+				}
+			}
+			if !samePTS && recvObj != nil {
+				in := sum.in
+				stT := recvObj.T
+				rv, _ := in.loadPath(sum.Out, recvObj, fmt.Sprint(fieldIx(stT, "received")), structOf(stT).Field(fieldIx(stT, "received")).Type()).(*SliceV)
+				var slot *Ptr
+				if rv != nil {
+					if lo, ok := rv.Lo.ConstInt(); ok {
+						et := rv.Elem
+						slot, _ = in.loadPath(sum.Out, rv.Obj, joinPath(rv.Prefix, int(lo)+2), et).(*Ptr)
+					}
+				}
+				if slot == nil {
+					detail = "an accepted descriptor is not filed in the head slot of the ring"
+				} else {
+					et := slot.T
+					pv, _ := in.loadPath(sum.Out, slot.Obj, joinPath(slot.Path, fieldIx(et, "pts")), structOf(et).Field(fieldIx(et, "pts")).Type()).(*BV)
+					if k, ok := int64(-1), false; pv != nil {
+						k, ok = pv.ConstInt()
+						if !ok || k != sc.pts {
+							detail = fmt.Sprintf("an accepted descriptor is filed in the head slot under PTS %s, its own is %d (the next identical descriptor would not be recognised)", showVal(pv), sc.pts)
+						}
+					} else {
+						detail = "the head slot's PTS key is unreadable"
+					}
+					if dv, _ := in.loadPath(sum.Out, slot.Obj, joinPath(slot.Path, fieldIx(et, "descs")), structOf(et).Field(fieldIx(et, "descs")).Type()).(*SliceV); detail == "" {
+						if dv == nil {
+							detail = "the head slot's descriptor list is unreadable"
+						} else if n, ok := dv.Len.ConstInt(); !ok || n != 1 {
+							detail = fmt.Sprintf("the head slot holds %s descriptors after filing one under a new PTS", showVal(dv.Len))
+						}
+					}
+				}
+			}
 		case sc.dup:
 			if _, isNil := sum.RetN(0).(NilV); !isNil {
 				detail = "a rejected duplicate returns closed descriptors: " + showVal(sum.RetN(0))
